@@ -844,6 +844,9 @@ class TypeVariable(TypeInstance):
                     if self.upper and self.upper.subtype(t.operator, True):
                         raise SubtypeMismatch(self.upper, t.operator)
                 else:
+                    # a variable bounded by base types is a base type
+                    if self.lower or self.upper:
+                        raise TypeMismatch(self.lower or self.upper, t)
                     variables = t.variables(indirect=False)
 
                     self._constraints.update(chain(*(
